@@ -258,7 +258,7 @@ func runC12(p *Prog, l *Ledger) {
 			}
 			handIdx := -1
 			for i, s := range sel.States {
-				if strip(s.Chan, false) == chanV {
+				if phiCore(s.Chan) == chanV {
 					handIdx = i
 				}
 			}
@@ -292,12 +292,12 @@ func runC12(p *Prog, l *Ledger) {
 						return true
 					}
 					c := p.CallOf(call)
-					if c.Name == "dynamic" && strip(c.FnVal, false) == evictV {
+					if c.Name == "dynamic" && strip(pa.Resolve(c.FnVal, step), false) == evictV {
 						ev++
 					}
 					if c.Static != nil && p.InModule(c.Static) {
 						for ai, a := range call.Call.Args {
-							if strip(a, false) == evictV {
+							if strip(pa.Resolve(a, step), false) == evictV {
 								k, why := c12CallsParamOnce(p, c.Static, ai)
 								if why != "" {
 									bad2 = append(bad2, fmt.Sprintf("%s: %s", p.At(ins), why))
